@@ -4,7 +4,7 @@
 (* order in which the boxes of a document are painted (C16).               *)
 (*                                                                         *)
 (* A document is a pre-order sequence of nodes                             *)
-(*   [parent, kind, pos, z, opac, clip]                                    *)
+(*   [parent, kind, pos, z, opac, clip, mirror]                            *)
 (* kind: "block" | "inline" | "iblock" | "float";  pos: "static" |         *)
 (* "relative" | "absolute";  z: an integer or Auto;  opac: opacity < 1;    *)
 (* clip: overflow: hidden. Every node has a background of its own colour   *)
@@ -31,14 +31,17 @@ vars == <<nodes, stack, out, phase>>
 
 Kinds == {"block", "inline", "iblock", "float"}
 Poss == IF Rich THEN {"static", "relative", "absolute"} ELSE {"static", "relative"}
-Node(n) == IF Wide THEN [parent : {0}, kind : {"block"}, pos : {"relative"}, z : {1, 2}, opac : {FALSE}, clip : {FALSE}]
-           ELSE [parent : 0..(n - 1), kind : Kinds, pos : Poss, z : Zs \cup {Auto}, opac : (IF Rich THEN BOOLEAN ELSE {FALSE}), clip : (IF Rich THEN BOOLEAN ELSE {FALSE})]
+\* mirror: the box declares a transform (a reflection: negative determinant), which creates a stacking context and applies
+\* to its whole sub-tree (at most one of opac / mirror per box)
+Node(n) == IF Wide THEN [parent : {0}, kind : {"block"}, pos : {"relative"}, z : {1, 2}, opac : {FALSE}, clip : {FALSE}, mirror : {FALSE}]
+           ELSE {x \in [parent : 0..(n - 1), kind : Kinds, pos : Poss, z : Zs \cup {Auto}, opac : (IF Rich THEN BOOLEAN ELSE {FALSE}), clip : (IF Rich THEN BOOLEAN ELSE {FALSE}),
+                         mirror : (IF Rich THEN BOOLEAN ELSE {FALSE})] : ~(x.opac /\ x.mirror)}
 N == Len(nodes)
 Par(i) == nodes[i].parent
 Kind(i) == IF i = 0 THEN "block" ELSE nodes[i].kind
 Positioned(i) == i # 0 /\ nodes[i].pos # "static"
-\* a real stacking context: the root, positioned with an integer z-index, or opacity < 1
-Creates(f, i) == i = 0 \/ (Positioned(i) /\ nodes[i].z # Auto) \/ nodes[i].opac \/ (f /\ nodes[i].clip)
+\* a real stacking context: the root, positioned with an integer z-index, opacity < 1, or a transform
+Creates(f, i) == i = 0 \/ (Positioned(i) /\ nodes[i].z # Auto) \/ nodes[i].opac \/ nodes[i].mirror \/ (f /\ nodes[i].clip)
 \* painted atomically "as if" it were a stacking context, but its positioned / context-creating descendants belong to the
 \* nearest real context: positioned with z-index auto, floats, inline-blocks
 Pseudo(f, i) == i # 0 /\ ~Creates(f, i) /\ (Positioned(i) \/ Kind(i) \in {"float", "iblock"})
@@ -99,7 +102,7 @@ AddNode == /\ phase = "build" /\ Len(nodes) < MaxNodes
            /\ \E x \in Node(Len(nodes) + 1) :
                  /\ x.parent \in (IF nodes = <<>> THEN {0} ELSE Anc(nodes, Len(nodes)))
                  /\ (x.parent # 0 /\ nodes[x.parent].kind = "inline" => x.kind = "inline")       \* no block inside inline
-                 /\ (x.kind = "inline" => x.pos = "static" /\ ~x.opac /\ ~x.clip)                \* inline boxes are plain
+                 /\ (x.kind = "inline" => x.pos = "static" /\ ~x.opac /\ ~x.clip /\ ~x.mirror)                \* inline boxes are plain
                  /\ (x.pos = "static" => x.z = Auto)                                             \* z-index only applies to positioned boxes
                  /\ ~(x.kind = "float" /\ x.pos = "absolute")                                    \* (float computes to none)
                  /\ nodes' = Append(nodes, x)
